@@ -37,8 +37,8 @@ def demo_cmds(demo_diff):
         names = []
         lines = txt.splitlines()
         for i, ln in enumerate(lines):
-            if ln.startswith('+') and re.search(r'#\[(test|rstest)\]', ln):
-                for j in range(i + 1, min(i + 6, len(lines))):
+            if ln.startswith('+') and re.search(r'#\[(test|rstest|rstest::rstest)\]', ln):
+                for j in range(i + 1, min(i + 14, len(lines))):
                     m = re.search(r'fn\s+(\w+)\s*\(', lines[j])
                     if m:
                         names.append(m.group(1))
